@@ -71,6 +71,23 @@ std::string EventLog::hashHex() const {
 //=============================================================================================
 SimInBuf::int_type SimInBuf::underflow() {
   HarnessScope hs;
+  if (fs::stdinClosed()) {
+    // Standard input was closed when the process started: the C library reads descriptor 0 a block
+    // at a time, whatever file the program has meanwhile opened there.
+    char buf[4096];
+    long n = fs::readFd0(buf, sizeof buf);
+    if (n > 0) {
+      block.assign(buf, (size_t)n);
+      fetched += (size_t)n;
+      setg(&block[0], &block[0], &block[0] + n);
+      g_log.ev("in_fd0_block", (uint64_t)id, (uint64_t)n);
+      return traits_type::to_int_type(block[0]);
+    }
+    setg(&cur, &cur + 1, &cur + 1);
+    eofReads++;
+    g_log.ev(n < 0 ? "in_ebadf" : "in_eof", (uint64_t)id);
+    return traits_type::eof();
+  }
   if (blockMode && fetched < data.size()) {
     size_t n = std::min<size_t>(4096, data.size() - fetched);
     block.assign(data, fetched, n);
@@ -217,6 +234,20 @@ std::map<std::string, std::string> snapshot() {
 void failOpen(const std::string &path, int err, bool writesOnly) { HarnessScope hs; faults()[norm(path.c_str())] = Fault{err, writesOnly}; }
 void clearFaults() { HarnessScope hs; faults().clear(); }
 
+namespace {
+bool g_stdinClosed = false;
+FILE *g_fd0File = nullptr; int g_fd0Real = -1; bool g_fd0Readable = false;
+}
+void setStdinClosed(bool closed) { g_stdinClosed = closed; g_fd0File = nullptr; g_fd0Real = -1; g_fd0Readable = false; }
+bool stdinClosed() { return g_stdinClosed; }
+long readFd0(char *buf, size_t n) {
+  if (!g_fd0File || !g_fd0Readable) return -1;
+  counters.fd0Reads++;
+  ssize_t r = ::read(g_fd0Real, buf, n);
+  return r < 0 ? -1 : (long)r;
+}
+void noteClose(FILE *fp) { if (fp && fp == g_fd0File) { g_fd0File = nullptr; g_fd0Real = -1; g_fd0Readable = false; g_log.evs("fd0_released", ""); } }
+
 static FILE *simOpen(const char *path, const char *mode) {
   HarnessScope hs;
   std::string k = norm(path);
@@ -264,6 +295,11 @@ static FILE *simOpen(const char *path, const char *mode) {
   g_log.evs("open", k, (uint64_t)flags);
   FILE *fp = fdopen(nfd, mode);
   if (!fp) { perror("simfs fdopen"); abort(); }
+  if (g_stdinClosed && !g_fd0File && g_harnessDepth == 1) {     // the lowest free descriptor is 0 (depth 1: called from the code under test)
+    g_fd0File = fp; g_fd0Real = nfd; g_fd0Readable = (rd || plus);
+    counters.fd0Taken++;
+    g_log.evs("fd0_taken_by", k, (uint64_t)g_fd0Readable);
+  }
   return fp;
 }
 } // namespace fs
@@ -281,6 +317,12 @@ FILE *fopen(const char *path, const char *mode) {
   if (sim::fs::simulated(path)) return sim::fs::simOpen(path, mode);
   static fopen_fn real = (fopen_fn)dlsym(RTLD_NEXT, "fopen");
   return real(path, mode);
+}
+int fclose(FILE *fp) {
+  typedef int (*fclose_fn)(FILE *);
+  static fclose_fn real = (fclose_fn)dlsym(RTLD_NEXT, "fclose");
+  sim::fs::noteClose(fp);
+  return real(fp);
 }
 int mkdir(const char *path, mode_t mode) {
   if (sim::fs::simulated(path)) { sim::g_log.evs("mkdir", path); return 0; }
